@@ -29,10 +29,13 @@ def swarm_cfg(rng, small):
     for op, p in (("*", 0.4), ("&", 0.4), ("|", 0.4), ("^", 0.3)):
         if rng.random() < p:
             ar.append(op)
+    if max(cfg["widths"]) > 16:
+        # wide multiplications / divisions make single solves take minutes
+        ar = [o for o in ar if o != "*"]
     cfg["arith"] = ar
     cfg["ps"] = rng.random() < 0.5
     cfg["shifts"] = rng.random() < 0.4
-    cfg["divmod"] = rng.random() < 0.3
+    cfg["divmod"] = rng.random() < 0.3 and max(cfg["widths"]) <= 16
     cfg["max_blocks"] = rng.choice([1, 2, 2, 3])
     cfg["max_stmts"] = rng.choice([2, 3, 4, 5])
     return cfg
